@@ -245,24 +245,42 @@ theorem prefix_composition (c : Ctx) (cmd : Str) :
 /-- nested `prefix` blocks contribute in nesting order (outermost first) -/
 theorem nested_prefixes_in_order (s : SudoCfg) (ps : List Str) (cmd : Str) (c : Ctx) :
     (exec s c (nestPrefixes ps (.run cmd .done))).log = [.ran (prefixCommands { c with prefixes := c.prefixes ++ ps } cmd)] ∧
-    (exec s c (nestPrefixes ps (.run cmd .done))).raised = false := by
+    (exec s c (nestPrefixes ps (.run cmd .done))).raised = none := by
   induction ps generalizing c with
   | nil => simp [nestPrefixes, exec]
   | cons p ps ih =>
     have h := ih (pushPrefix c p)
-    simp only [nestPrefixes, exec, seqOut, h.2, Bool.false_eq_true, if_false, h.1]
+    simp only [nestPrefixes, exec, seqOut, h.2, h.1]
     simp [pushPrefix, List.append_assoc]
 
 /-- nested `cd` blocks: the directory is the join of the paths from the last absolute one on -/
 theorem nested_cds_in_order (s : SudoCfg) (ds : List Str) (cmd : Str) (c : Ctx) :
     (exec s c (nestCds ds (.run cmd .done))).log = [.ran (prefixCommands { c with cwds := c.cwds ++ ds } cmd)] ∧
-    (exec s c (nestCds ds (.run cmd .done))).raised = false := by
+    (exec s c (nestCds ds (.run cmd .done))).raised = none := by
   induction ds generalizing c with
   | nil => simp [nestCds, exec]
   | cons p ps ih =>
     have h := ih (pushCwd c p)
-    simp only [nestCds, exec, seqOut, h.2, Bool.false_eq_true, if_false, h.1]
+    simp only [nestCds, exec, seqOut, h.2, h.1]
     simp [pushCwd, List.append_assoc]
+
+/-- the anchor rule of the current directory: ONLY a component that itself STARTS with `~` or `/` restarts it — the
+    directory is the join of the (space-escaped) components from the last such component on; `~` or `/` in the
+    interior or at the end of a component (`data/~tmp`, `/~archive`, `x/`, `a~`) never cuts anything -/
+theorem cwd_anchor_rule (pre : List Str) (a : Str) (rest : List Str) (ha : startsAbs a = true)
+    (h : rest.any startsAbs = false) :
+    cwdOf (pre ++ a :: rest) = pathJoin ((a :: rest).map escapeSpaces) := by
+  have hne : (pre ++ a :: rest).isEmpty = false := by cases pre <;> rfl
+  simp only [cwdOf, hne, Bool.false_eq_true, if_false, fromLastAbs_append_abs pre a rest ha h]
+
+/-- without any anchored component nothing is cut at all -/
+theorem cwd_no_anchor (l : List Str) (hne : l ≠ []) (h : l.any startsAbs = false) :
+    cwdOf l = pathJoin (l.map escapeSpaces) := by
+  have : l.isEmpty = false := by cases l with | nil => exact absurd rfl hne | cons _ _ => rfl
+  simp only [cwdOf, this, Bool.false_eq_true, if_false, fromLastAbs_no_abs l h]
+
+/-- being an anchor depends on the FIRST character only -/
+theorem anchor_is_leading_char (c : Char) (s : Str) : startsAbs (c :: s) = (c == '~' || c == '/') := rfl
 
 /-- from a fresh context: exactly `p₁ && … && pₙ && command` -/
 theorem fresh_nested_prefixes (s : SudoCfg) (ps : List Str) (cmd : Str) :
@@ -276,7 +294,7 @@ theorem fresh_nested_prefixes (s : SudoCfg) (ps : List Str) (cmd : Str) :
 theorem prefix_stack_restored (s : SudoCfg) (p : Prog) (c : Ctx) : (exec s c p).ctx = c := by
   induction p generalizing c with
   | done => rfl
-  | raise => rfl
+  | raise e => rfl
   | run cmd k ih => simp [exec, ih]
   | sudo cmd u e k ih => simp [exec, ih]
   | obs k ih => simp [exec, ih]
@@ -295,6 +313,15 @@ theorem run_after_failed_block (s : SudoCfg) (c : Ctx) (body : Prog) (path cmd :
   have h := prefix_stack_restored s (.cd path body .done) c
   simp only [exec] at h
   simp only [exec, h]
+
+/-- whatever KIND of exception leaves nested blocks (Exception, KeyboardInterrupt, SystemExit, GeneratorExit, a
+    failing command), an observation made after catching it sees the stacks of before the blocks -/
+theorem any_exception_kind_restores (s : SudoCfg) (c : Ctx) (e : ExcKind) (p d : Str) :
+    (exec s c (.catch (.pfx p (.cd d (.raise e) .done) .done) (.obs .done))).log = [.stacks c.prefixes c.cwds] ∧
+    (exec s c (.catch (.pfx p (.cd d (.raise e) .done) .done) (.obs .done))).raised = none := by
+  have h := prefix_stack_restored s (.pfx p (.cd d (.raise e) .done) .done) c
+  simp only [exec, seqOut] at h ⊢
+  simp [h]
 
 /-- `sudo -S -p '<prompt>' [--preserve-env='<names>' ][-H -u <user> ]<command>` -/
 theorem sudo_command (prompt : Str) (user : Option Str) (names : List Str) (cmd : Str) :
@@ -318,11 +345,14 @@ example : prefixCommands { prefixes := ["act".toList, "src x".toList], cwds := [
     = "cd /a/b\\ c && act && src x && ls".toList := by decide
 example : cwdOf ["/a".toList, "b".toList, "~/c".toList, "d".toList] = "~/c/d".toList := by decide
 example : cwdOf ["x".toList, "y".toList] = "x/y".toList := by decide
+example : cwdOf ["/srv".toList, "data/~tmp".toList, "logs".toList] = "/srv/data/~tmp/logs".toList := by decide
+example : cwdOf ["/~archive".toList] = "/~archive".toList := by decide
+example : cwdOf ["a~".toList, "x/".toList, "~".toList, "b/~".toList, "".toList] = "~/b/~/".toList := by decide
 example : sudoCommand "[sudo] password: ".toList (some "bob".toList) ["A".toList, "B".toList] "cd /x && ls".toList
     = "sudo -S -p '[sudo] password: ' --preserve-env='A,B' -H -u bob cd /x && ls".toList := by decide
 example : sudoCommand "P".toList none [] "ls".toList = "sudo -S -p 'P' ls".toList := by decide
 example : (exec { prompt := [], user := none, password := none } { prefixes := [], cwds := [] }
-    (.catch (.pfx "a".toList (.cd "/x".toList (.run "l".toList .raise) .done) (.run "never".toList .done)) (.obs (.run "z".toList .done)))).log
+    (.catch (.pfx "a".toList (.cd "/x".toList (.run "l".toList (.raise .keyboardInterrupt)) .done) (.run "never".toList .done)) (.obs (.run "z".toList .done)))).log
     = [.ran "cd /x && a && l".toList, .stacks [] [], .ran "z".toList] := by decide
 example : unifyView [("echo", .true)] .none [("hide", .true), ("echo", .none)]
     = some (.false, ["stdout", "stderr"], .none, .stream 0, .stream 1) := by decide
